@@ -7,7 +7,7 @@ set -u
 ID=$1; V=$2; shift 2
 CHECKS=${@:-$ID}
 SRC=${SEEDROOT:-/tmp/seed}/$ID/seed/$V
-ROOT=/tmp/vpmut
+ROOT=${VPMUT_ROOT:-/tmp/vpmut}
 WT=$ROOT/seedwt-$ID-$V
 mkdir -p $ROOT
 [ -f $SRC/patch.diff ] || { echo "$ID/$V: no patch.diff"; exit 2; }
